@@ -373,7 +373,9 @@ type GenOptions struct {
 
 var genNames = []string{"a", "b", "c", "d", "e", "f0", "g.txt", "H", "lib", "obj", "out", "z z", "ü", "-x", "sub", "x.o", "y.o"}
 
-var genTargets = []string{"a", "../b", "/abs/target", "sub/x.o", ".", "..", "./q", "p//q", "dir/", "a/../b", "/", "../../../up", "x/./y"}
+var genTargets = []string{"a", "../b", "/abs/target", "sub/x.o", ".", "..", "./q", "p//q", "dir/", "a/../b", "/", "../../../up", "x/./y",
+	// Longer than the initial readlink() buffer of the local directory.
+	strings.Repeat("long/", 60) + "x"}
 
 // GenContents returns a small pool of distinct byte strings including the
 // empty one.
